@@ -2432,7 +2432,8 @@ FROM (
         child_sqls = []
         for child in node.children:
             child_sql = self.visit(child)
-            if not child_sql.strip().upper().startswith("SELECT"):
+            # A nested symdiff is a query that starts with its CTEs (WITH ...), not a table name.
+            if not child_sql.strip().upper().startswith(("SELECT", "WITH")):
                 child_sql = (
                     f"SELECT * FROM "
                     f"{quote_name(child.value if hasattr(child, 'value') else child_sql)}"
